@@ -247,4 +247,84 @@ def Obj.refs : Obj → List Nat
   | .func env _ => [env]
   | _ => []
 
+/-! ### histories: the operations of C09's quantifier -/
+
+inductive Op where
+  | alloc (o : Obj)
+  | setVec (a i v : Nat)
+  | setArr (a i v : Nat)
+  | append (a v : Nat)
+  | setFuncVec (a v : Nat)
+  | setVecRef (a v : Nat)
+  | setArrRef (a v : Nat)
+  | setStrRef (a v : Nat)
+  | collect (stack : List Slot) (gp : Nat)
+  | omfalos (stack : List Slot)
+  deriving Repr, DecidableEq
+
+def isStr : Option Obj → Bool | some (.str _) => true | _ => false
+def isVec : Option Obj → Bool | some (.vec _) => true | _ => false
+def isArr : Option Obj → Bool | some (.arr _ _) => true | _ => false
+
+/-- a reference the VM may store in a generic slot: nil or an allocated cell -/
+def Mem.okRef (m : Mem) (r : Nat) : Bool := r = 0 || (m.objAt r).isSome
+def Mem.okStr (m : Mem) (r : Nat) : Bool := r = 0 || isStr (m.objAt r)
+def Mem.okVec (m : Mem) (r : Nat) : Bool := r = 0 || isVec (m.objAt r)
+def Mem.okArr (m : Mem) (r : Nat) : Bool := r = 0 || isArr (m.objAt r)
+
+/-- references of an object are well-kinded in `m` (what the typed VM guarantees and
+what `gc_mark_vec`/`gc_mark_arr` silently rely on) -/
+def Mem.okObj (m : Mem) : Obj → Bool
+  | .strRef p => m.okStr p
+  | .vec fs => fs.all m.okRef
+  | .vecRef p => m.okVec p
+  | .arr _ es => es.all m.okRef
+  | .arrRef p => m.okArr p
+  | .func env _ => m.okVec env
+  | _ => true
+
+def slotOk (m : Mem) : Slot → Bool
+  | .addr a => a < m.size
+  | _ => true
+
+/-- precondition of an operation: stores and roots are well-typed (decidable) -/
+def Gc.wellTyped (g : Gc) : Op → Bool
+  | .alloc o => g.mem.okObj o
+  | .setVec _ _ v => g.mem.okRef v
+  | .setArr _ _ v => g.mem.okRef v
+  | .append _ v => g.mem.okRef v
+  | .setFuncVec _ v => g.mem.okVec v
+  | .setVecRef _ v => g.mem.okVec v
+  | .setArrRef _ v => g.mem.okArr v
+  | .setStrRef _ v => g.mem.okStr v
+  | .collect st gp => st.all (slotOk g.mem) && gp < g.mem.size
+  | .omfalos st => st.all (slotOk g.mem)
+
+/-- result of one operation: `none` = the C code is outside defined behaviour
+(failed tag assertion, NULL/foreign read in the collector, recursion without end) -/
+def Gc.apply (g : Gc) : Op → Option Gc
+  | .alloc o => match g.alloc o with
+      | some (g', _) => some g'
+      | none => some g            -- "out of memory": reported, state untouched
+  | .setVec a i v => g.setVec a i v
+  | .setArr a i v => g.setArrElem a i v
+  | .append a v => g.appendArrElem a v
+  | .setFuncVec a v => g.setFuncVec a v
+  | .setVecRef a v => g.setVecRef a v
+  | .setArrRef a v => g.setArrRef a v
+  | .setStrRef a v => g.setStringRef a v
+  | .collect st gp => g.collect st gp
+  | .omfalos st => g.runOmfalos st
+
+/-- run a history; operations that are not well-typed, or whose typed store would trip
+the accessor's tag assertion, are not part of any history the VM produces: skipped -/
+def Gc.exec (g : Gc) : List Op → Gc
+  | [] => g
+  | op :: ops =>
+    if g.wellTyped op then
+      match g.apply op with
+      | some g' => g'.exec ops
+      | none => g.exec ops
+    else g.exec ops
+
 end Never
